@@ -170,10 +170,37 @@ class ProofResult:
         self.log_tail = ""
         self.axioms: Dict[str, List[str]] = {}
         self.checker_cmd = ""
+        self.leanchecker: Dict[str, Any] = {}
 
 
-def prove(prop: str, extra_targets: Sequence[str] = ()) -> ProofResult:
-    """lake build Midgard.Props.<prop> (+driver), audit axioms and forbidden tokens."""
+def module_of(path: Path) -> str:
+    return ".".join(path.relative_to(LEAN).with_suffix("").parts)
+
+
+def leancheck(module: str, jobs: int = 12, timeout: int = 3000) -> Tuple[bool, Dict[str, Any]]:
+    """independent re-check of the compiled .olean files of `module` and every project-local module it imports
+    with the toolchain's `leanchecker` (replays every declaration through the kernel)"""
+    from concurrent.futures import ThreadPoolExecutor
+
+    mods = sorted(module_of(p) for p in lean_sources_for(module))
+    t0 = time.time()
+
+    def one(m):
+        try:
+            p = subprocess.run(["lake", "env", "leanchecker", m], cwd=LEAN, capture_output=True, text=True, timeout=timeout)
+            return m, p.returncode, (p.stdout + p.stderr)[-300:]
+        except subprocess.TimeoutExpired:
+            return m, 124, "timeout"
+
+    with ThreadPoolExecutor(max_workers=jobs) as ex:
+        res = list(ex.map(one, mods))
+    bad = [(m, rc, out) for m, rc, out in res if rc != 0]
+    return not bad, {"modules": len(mods), "failed": [f"{m}: exit {rc} {out}" for m, rc, out in bad][:5], "wall_s": round(time.time() - t0, 1)}
+
+
+def prove(prop: str, extra_targets: Sequence[str] = (), tier: Optional[str] = None) -> ProofResult:
+    """lake build Midgard.Props.<prop> (+driver), audit axioms and forbidden tokens; in the thorough tier also
+    re-check the compiled modules with leanchecker."""
     r = ProofResult()
     module = f"Midgard.Props.{prop}"
     targets = [module, f"drv_{prop.lower()}", *extra_targets]
@@ -200,6 +227,12 @@ def prove(prop: str, extra_targets: Sequence[str] = ()) -> ProofResult:
     if not ok:
         errs = [l for l in log.splitlines() if l.startswith("error:")]
         r.failed.append("lake build failed: " + " | ".join(errs[:6]))
+    tier = tier or os.environ.get("VERIF_TIER_EFFECTIVE")
+    if ok and not r.failed and tier == "thorough":
+        lc_ok, info = leancheck(module)
+        r.leanchecker = info
+        if not lc_ok:
+            r.failed.append("leanchecker rejected: " + "; ".join(info["failed"]))
     r.ok = ok and not r.failed and r.obligations > 0
     return r
 
@@ -418,6 +451,7 @@ def finish(ctx: Ctx, level: str = "proof") -> int:
         "trusted_base": ["Lean 4.33.0 kernel", "axioms: propext, Classical.choice, Quot.sound only (audited by #print axioms on every theorem)",
                          "correspondence harness (harness/%s.py) and line-protocol driver" % ctx.prop.lower()] + ctx.trusted,
         "theorems": pr_.theorems if pr_ else [],
+        "leanchecker": (pr_.leanchecker if pr_ else {}) or "not run in this tier (thorough tier re-checks every project module with leanchecker)",
         "proof_failures": pr_.failed if pr_ else [],
         "evaluations": ctx.evaluations,
         "distinct_nontrivial": len(ctx.nontrivial),
